@@ -53,6 +53,16 @@ def cases(seed, tier):
                 out.append({"group": "history", "kind": "abort_reuse", "functional": fname, "rep": rep, "phase": rng.choice(["fwd", "bwd", "bwd", "bwd2"]),
                             "kfrac": rng.random(), "d": rng.choice([2, 3, 7]), "s": 0.4, "seed": sub_seed(seed, "c09hs", k)})
                 k += 1
+    # one object, two calls with the holders REBOUND in between, and only then one backward pass through both results
+    for fname in fn:
+        for j, holder in enumerate(("list", "dict", "subobject", "nnmodule", "attribute")):
+            for r in range(reps):
+                if tier == "quick" and (j + len(fname)) % 2 != 0:
+                    continue
+                rng = random.Random(sub_seed(seed, "c09hl", fname, holder, r))
+                out.append({"group": "history", "kind": "late_backward", "functional": fname, "rep": "rebind_" + holder, "holder": holder,
+                            "d": rng.choice([2, 3, 7]), "s": 0.4, "seed": sub_seed(seed, "c09hs", k)})
+                k += 1
     return out
 
 
@@ -100,7 +110,56 @@ def _compare(obs, mech, stage, tol, outs_ref, outs, leaves_ref, leaves, gref, g)
 def run_case(desc):
     if desc["kind"] == "refreeze":
         return run_refreeze(desc)
+    if desc["kind"] == "late_backward":
+        return run_late(desc)
     return run_abort(desc)
+
+
+def run_late(desc):
+    """call 1 on generation-1 tensors, holders rebound to generation 2, call 2, then ONE backward through both results: the first result must be
+    differentiated for the tensors the object held at ITS call"""
+    from vf.props import c09
+    obs = Obs(desc)
+    fname, holder, d, s = desc["functional"], desc["holder"], desc["d"], desc["s"]
+    dtype = torch.float64
+    tg = torch.Generator().manual_seed(desc["seed"])
+    F = funcs.FUNCTIONALS[fname]
+    mech = "%s:late_%s" % (fname, holder)
+    tol = 1e-6 if F.iterative else 1e-8
+    lv = {k: v.detach().clone().requires_grad_() for k, v in funcs.make_leaves(d, tg, dtype).items()}
+    lv_ref = {k: v.detach().clone().requires_grad_() for k, v in lv.items()}
+
+    def gens(l):
+        a, b, W = funcs.effective(l, True)
+        return (a * 1.1, b + 0.05, W * 0.9), funcs.effective(l, True)
+    try:
+        with WarnLog():
+            outs_ref = []
+            for g_ in gens(lv_ref):
+                outs_ref += _outs(F.run(funcs.build("pure", F.core, F.nlead, g_, s), d, dtype, None))
+    except Exception as e:
+        raise HarnessBug("reference run failed for %s: %s: %s" % (fname, type(e).__name__, e))
+    obj = c09._rebind_object(holder, F.core, F.nlead, s)
+    built = funcs.Built(obj.fwd, (), [("e", obj)], ())
+    leaves, leaves_ref = [lv[k] for k in funcs.LEAF_NAMES], [lv_ref[k] for k in funcs.LEAF_NAMES]
+    cots = [torch.randn(o.shape, generator=tg, dtype=dtype) for o in outs_ref]
+    cots2 = [torch.randn(l.shape, generator=tg, dtype=dtype) for l in leaves]
+    gref = _grads(outs_ref, leaves_ref, cots, cots2)
+    try:
+        with WarnLog():
+            outs = []
+            for g_ in gens(lv):
+                obj.rebind(*g_)
+                outs += _outs(F.run(built, d, dtype, None))
+            g = _grads(outs, leaves, cots, cots2)
+    except Exception as e:
+        obs.exc_violation("history:late_backward:" + mech, e)
+        obs.nontrivial = True
+        return obs.result()
+    _compare(obs, mech, "late_backward", tol, outs_ref, outs, leaves_ref, leaves, gref, g)
+    obs.count("late_backward_compared")
+    obs.nontrivial = True
+    return obs.result()
 
 
 def _reference(F, lv, d, s, dtype, cots_gen):
